@@ -30,8 +30,10 @@ PROP = dict(
     theorems=['Fit.C08.C08_readN_refines', 'Fit.C08.C08_readN_sound', 'Fit.C08.C08_request_bound',
               'Fit.C08.C08_chunk_indep_partial', 'Fit.C08.C08_chunk_indep', 'Fit.C08.C08_chunk_indep_reused_buffer', 'Fit.C08.C08_full_false',
               'Fit.C08.C08_checkIntegrity_indep', 'Fit.C08.C08_reader_error', 'Fit.C08.C08_reader_error_decode',
-              'Fit.C08.C08_reader_error_loop', 'Fit.C08.C08_raw_chunk_indep'],
-    families=[dict(name='readbuffer', spec=True), dict(name='dfrag', spec=True, prop=True)],
+              'Fit.C08.C08_reader_error_loop', 'Fit.C08.C08_raw_chunk_indep',
+              'Fit.C08.C08_request_bound_ops', 'Fit.C08.C08_chunk_indep_ops', 'Fit.C08.C08_chunk_indep_ops_contiguous',
+              'Fit.C08.C08_reader_error_ops'],
+    families=[dict(name='readbuffer', spec=True), dict(name='dfrag', spec=True, prop=True), dict(name='dhfrag', spec=True, prop=True), dict(name='rawfrag', spec=True)],
     # link theorems between the decoder models this property composes with (additive: checklib/props/_links.py)
     extra=with_links(_extra, ['Fit.Links.Link_decprog_eq_api',
                              'Fit.Links.Link_chunk_indep_api',
@@ -44,19 +46,21 @@ PROP = dict(
         "the model of readBuffer.Reset/ReadN (FitModel/ReadBuffer.lean: backing array, len, cur, last, memmove into the reserved section, refill) is hand-written from decoder/readbuffer.go and tied by family readbuffer: the unexported type (hook decoder/verif_export.go) driven with arbitrary Reset/ReadN sequences × schedules × buffer sizes, every returned byte string and error compared",
         "io.ReadAtLeast / io.ReadFull (Go standard library) are modelled from their documentation and six-line loop (ral/readAtLeast); the io.Reader is a schedule of (bytes, error) results, delivered piecewise when the destination is shorter; a reader that violates the io.Reader contract (n > len(p), n < 0) is outside the model",
         "the decoder as a client of ReadN (FitModel/DecProg.lean: header, definitions, data incl. developer fields and field descriptions, CRC, Next/Decode loop, CheckIntegrity) is tied by family dfrag: real Decoder over fragmenting/failing readers with every buffer size vs the model decoder on the model read buffer over the same schedule (listener events, headers, CRCs, error class)",
+        "every entry point and every history of calls as a client of ReadN (FitModel/DecHist.lean: the decoder object between calls - sticky error, Once of the header, position, running checksum, definitions, descriptions, file_id seen, byte consumed - over the record level of DecProg with the failure continuation as a parameter) is tied by family dhfrag: the real Decoder driven through generated call lists (dec, decx, decc, decx:k, pkh, pki, dis, nxt, final ci) over fragmenting / failing readers with every buffer size vs the model on the model read buffer (per-call results, listener events); --prop also compares the implementation's answer with the API model (C) of C03/C07 run on the delivered bytes (clean schedules, stream not ending inside a request)",
         "that the decoder consumes the bytes of a ReadN result before the next ReadN (the slice aliases the buffer) is not a theorem: it is sampled at value level by the `v=` comparison of family dfrag (everything the listeners and Decode hand out, fragmented vs contiguous)",
         "constants reservedbuf, minReadBufferSize, defaultReadBufferSize are re-extracted from the compiled tree on every run (Generated/ReaderConsts.lean); maxReadBufferSize (math.MaxUint32) is hand-copied: a 4 GiB buffer is never allocated by the check",
     ],
     assumptions=[
         "chunk independence is stated for schedules without failure (Clean): any partition into reads of any lengths incl. zero-length reads, io.EOF together with the last bytes or afterwards; reader failures are the subject of C08_reader_error / C08_readN_sound",
         "bytes are < 256 (IsBytes); streams below 4 GiB (Decoder.cur is a uint32; the model uses Nat)",
-        "a fresh Decoder (decoder.New); the read buffer itself is verified for every prior state (any b in b.reset)",
+        "a fresh Decoder (decoder.New) per reader; the read buffer itself is verified for every prior state (any b in b.reset). Reset onto a new reader and the re-seek after CheckIntegrity start a new program (C07_reset_is_new / C07_integrity_check_is_new: the decoder is new then); a history program ends with its CheckIntegrity",
+        "DecodeWithContext cancelled at the first Read of the call (decx:0 of family decapi) is not generated over fragmenting readers (k >= 1 is)",
         "`fuel` of the decode loop bounds the number of sequences; the theorems hold for every fuel, the correspondence uses fuel = stream length + 1",
     ],
 )
 
 TEXT = dict(
     technique='Lean 4 proof: exact model of readbuffer.go over arbitrary read schedules, window invariant, refinement of the exact-n reader for every schedule/buffer size/prior buffer state; decoders are programs over ReadN (free monad), so refinement lifts to every decode outcome by one simulation theorem; differential correspondence of buffer, decoder and CheckIntegrity over fragmenting and failing readers',
-    text='Theorems: C08_readN_refines (any clean schedule, any buffer size, any prior buffer state: ReadN sequence = exact-n reader, errors up to the EOF class, exactly equal unless the stream ends inside a request), C08_readN_sound (any reader incl. failing ones: never panics, success only with exactly the next n bytes), C08_request_bound (every decoder request ≤ reservedbuf = 765; a short read ends the run), C08_chunk_indep_partial / C08_chunk_indep (decode outcome — events, headers, CRCs, error — equal for any two clean schedules and buffer sizes; up to EOF class in general, exactly when not truncated inside a request), C08_full_false (the strict statement fails: KF-C08-1 witness decided in the kernel), C08_reader_error (a reader error before the requested bytes are delivered is returned by ReadN), C08_reader_error_loop / C08_reader_error_decode (over any reader and buffer size, a reader failure handed to the decoder is the error the Next/Decode loop — and a single Decode — ends with; full strength since the fix 7644d6f of KF-C08-2), C08_checkIntegrity_indep, C08_chunk_indep_reused_buffer, C08_raw_chunk_indep (clients of io.ReadFull: exact incl. error class). Tie: families readbuffer (hook-driven, enumerated split points around the reserved-prefix boundary, random schedules × sizes × request sequences, buffer re-use) and dfrag (real Decoder / CheckIntegrity over 1-byte, random, DataErrReader-style, failing-at-every-offset readers vs model and vs contiguous decode at value level).',
+    text='Theorems: C08_readN_refines (any clean schedule, any buffer size, any prior buffer state: ReadN sequence = exact-n reader, errors up to the EOF class, exactly equal unless the stream ends inside a request), C08_readN_sound (any reader incl. failing ones: never panics, success only with exactly the next n bytes), C08_request_bound (every decoder request ≤ reservedbuf = 765; a short read ends the run), C08_chunk_indep_partial / C08_chunk_indep (decode outcome — events, headers, CRCs, error — equal for any two clean schedules and buffer sizes; up to EOF class in general, exactly when not truncated inside a request), C08_full_false (the strict statement fails: KF-C08-1 witness decided in the kernel), C08_reader_error (a reader error before the requested bytes are delivered is returned by ReadN), C08_reader_error_loop / C08_reader_error_decode (over any reader and buffer size, a reader failure handed to the decoder is the error the Next/Decode loop — and a single Decode — ends with; full strength since the fix 7644d6f of KF-C08-2), C08_checkIntegrity_indep, C08_chunk_indep_reused_buffer, C08_raw_chunk_indep (clients of io.ReadFull: exact incl. error class). EVERY ENTRY POINT: C08_request_bound_ops / C08_chunk_indep_ops / C08_chunk_indep_ops_contiguous (for every list of calls Decode / DecodeWithContext live, cancelled before, cancelled after k records / PeekFileHeader / PeekFileId / Discard / Next / final CheckIntegrity on one decoder: any two clean fragmentations, buffer sizes and prior buffer states give the same per-call results and listener events - up to the EOF class, exactly when the stream does not end inside a request; in particular those of the contiguous reader) and C08_reader_error_ops (a reader failure handed to the decoder during any call ends the reading and is the decoder\'s error). Value level: the dfrag answer carries m= - the digest of every message\'s VALUES as handed to the listener, which the model rebuilds from the field bytes of its message events with the decoder-API model\'s own functions (apiOf, standard factory, expansion off). Tie: families readbuffer (hook-driven, enumerated split points around the reserved-prefix boundary, random schedules × sizes × request sequences, buffer re-use) dfrag (real Decoder / CheckIntegrity over 1-byte, random, DataErrReader-style, failing-at-every-offset readers vs model and vs contiguous decode at value level) dhfrag (call histories over the same readers) and rawfrag (the real RawDecoder - io.ReadFull straight on the reader - on streams cut at every offset, each cut delivered in one Read together with io.EOF, with its last byte alone together with io.EOF, one byte per Read, in random partitions; reference: bytes.NewReader).',
     note='Proved about the model; tied by differential testing. Full strength (identical error class for truncated streams) is false on the pinned tree: io.EOF vs io.ErrUnexpectedEOF depends on fragmentation (F12, pinned by a test → open finding KF-C08-1). KF-C08-2 (Next() swallowed a reader failure) was found by this check and fixed in /repo (7644d6f).',
 )
